@@ -2,7 +2,7 @@ package main
 
 func init() {
 	register("C01", "Decided: register tables, no-operand opcode table, condition codes (T-rules); not decided: form selection on concrete operands.",
-		ruleT1, ruleT2, ruleT3, ruleT5)
+		ruleT1, ruleT2, ruleT3, ruleT5, ruleF8size, ruleP3, ruleF1, ruleF7, ruleE5)
 	register("C06", "", ruleT7, ruleT10Expr)
 	register("C12", "", ruleT10Layout)
 	register("C07", "", ruleT11, ruleE7, ruleP2, ruleP2g, ruleP2b, ruleP2c)
@@ -32,4 +32,8 @@ func init() {
 
 func init() {
 	register("C18", "", ruleF8c, ruleF8a, ruleI1, ruleT5)
+}
+
+func init() {
+	register("C02", "", ruleT6, ruleQ2, ruleE8, ruleG2, ruleT1, ruleI1, ruleP3, ruleZ3)
 }
